@@ -270,6 +270,14 @@ class CircuitWorld(World):
         op = {"k": "query", "circ": ci, "q": q, "seed": r.randrange(2**31),
               "where": r.sample(range(N), r.choice([1, 1, 2, 2, 3]) if N >= 3 else r.choice([1, 2])),
               "nfix": r.choice([0, 0, 1, 2])}
+        if cls in EXACT and r.random() < 0.4:
+            # non-default query arguments: the memo tables are keyed by some
+            # of them, and a rehearsal of the same query may run first
+            op["qopts"] = {"seq": r.choice([None, "R", "", "ADCRS", "DCRS", "ADCRSL"]),
+                           "eqn": r.choice([None, None, False]),
+                           "optimize": r.choice([None, None, "greedy"]),
+                           "reverse": r.random() < 0.3,
+                           "rehearse": r.choice([None, None, "tn", True])}
         if kn["interrupts"] and cls in EXACT and r.random() < 0.35:
             op["interrupt_at"] = int(10 ** r.uniform(0.5, 4.3))
         if q == "uni" and c.get("contract") is True:
@@ -738,14 +746,43 @@ class CircuitWorld(World):
         d128 = {"dtype": "complex128"} if self.knobs["dtype128"] else {}
 
         def fail(msg):
-            raise Violation(tag, f"{msg} [{len(c['applied'])} gates]")
+            raise Violation(tag, f"{msg} [{len(c['applied'])} gates]" + (f" qopts={qo}" if qo else ""))
+
+        qo = (op.get("qopts") or {}) if cls in EXACT else {}
+        qkw = {}
+        if qo.get("seq") is not None:
+            qkw["simplify_sequence"] = qo["seq"]
+        if qo.get("eqn") is not None:
+            qkw["simplify_equalize_norms"] = qo["eqn"]
+        if qo.get("seq") in ("R", ""):
+            # documented: without a data-inspecting pass ``check_zero="auto"``
+            # is off and equalizing the norm of an all-zero tensor (a string
+            # of amplitude 0) gives NaN by design (tracing-friendly)
+            qkw["simplify_equalize_norms"] = False
+        if qo.get("optimize"):
+            qkw["optimize"] = qo["optimize"]
+        if qo:
+            self.stats.probe("query_with_options")
+
+        def rehearsed(f):
+            """f(**extra): optionally rehearse the very same query first."""
+            def thunk():
+                if qo.get("rehearse"):
+                    f(rehearse=qo["rehearse"])
+                return f()
+            return thunk
 
         if q == "to_dense":
+            rev = bool(qo.get("reverse"))
+            want_psi = psi.reshape((2,) * N).transpose(tuple(reversed(range(N)))).reshape(-1) if rev else psi
+
             def judge(v):
                 v = np.asarray(v).reshape(-1)
-                if v.shape != psi.shape or maxdiff(v, psi) > tol:
-                    fail(f"max|diff|={maxdiff(v, psi) if v.shape == psi.shape else 'shape'}")
-            return (lambda: circ.to_dense()), judge
+                if v.shape != want_psi.shape or maxdiff(v, want_psi) > tol:
+                    fail(f"max|diff|={maxdiff(v, want_psi) if v.shape == want_psi.shape else 'shape'}")
+            if cls in MPS:
+                return (lambda: circ.to_dense()), judge
+            return rehearsed(lambda **e: circ.to_dense(reverse=rev, **qkw, **e)), judge
         if q == "amplitude":
             b = "".join(str(int(x)) for x in rng.integers(0, 2, size=N))
             want = psi[int(b, 2)]
@@ -753,7 +790,9 @@ class CircuitWorld(World):
             def judge(v):
                 if not abs(complex(v) - want) <= tol:
                     fail(f"amplitude({b}) = {complex(v)} vs {want}")
-            return (lambda: circ.amplitude(b)), judge
+            if cls in MPS:
+                return (lambda: circ.amplitude(b)), judge
+            return rehearsed(lambda **e: circ.amplitude(b, **qkw, **e)), judge
         if q == "partial_trace":
             keep = list(where)
             t = psi.reshape((2,) * N)
@@ -766,7 +805,9 @@ class CircuitWorld(World):
                 if v.shape != rho.shape or maxdiff(v, rho) > tol:
                     fail(f"partial_trace({keep}) max|diff|={maxdiff(v, rho) if v.shape == rho.shape else v.shape}")
             arg = keep if len(keep) > 1 or rng.uniform() < 0.5 else keep[0]
-            return (lambda: circ.partial_trace(arg)), judge
+            if cls in MPS:
+                return (lambda: circ.partial_trace(arg)), judge
+            return rehearsed(lambda **e: circ.partial_trace(arg, **qkw, **e)), judge
         if q in ("local_expectation", "local_expectation_list", "local_expectation_dtype"):
             k = len(where)
             A = rng.normal(size=(2**k, 2**k)) + 1j * rng.normal(size=(2**k, 2**k))
@@ -784,7 +825,7 @@ class CircuitWorld(World):
                 return (lambda: circ.local_expectation(A, tuple(where), dtype="complex128")), judge
             if cls in MPS:
                 return (lambda: circ.local_expectation(A, tuple(where))), judge
-            return (lambda: circ.local_expectation(A, tuple(where), **d128)), judge
+            return rehearsed(lambda **e: circ.local_expectation(A, tuple(where), **d128, **qkw, **e)), judge
         if q == "compute_marginal":
             others = [a for a in range(N) if a not in where]
             nfix = min(op.get("nfix", 0), len(others))
@@ -810,7 +851,8 @@ class CircuitWorld(World):
             fixarg = {k_: str(v_) if rng.uniform() < 0.5 else v_ for k_, v_ in fix.items()} or None
             if cls in MPS:
                 return (lambda: circ.compute_marginal(tuple(where), fix=fixarg)), judge
-            return (lambda: circ.compute_marginal(tuple(where), fix=fixarg, dtype="complex128", simplify_atol=1e-12)), judge
+            return rehearsed(lambda **e: circ.compute_marginal(tuple(where), fix=fixarg, dtype="complex128",
+                                                                simplify_atol=1e-12, **qkw, **e)), judge
         if q == "psi_simplified":
             def judge(v):
                 outer = [f"k{i}" for i in range(N)]
